@@ -59,24 +59,26 @@ type recEvent struct {
 }
 
 type runner struct {
-	t       *tape.Tape
-	res     *sim.Result
-	engine  string
-	listen  bool
-	subset  map[string]bool // nil = all functions
-	w       *plan.World
-	insts   []*plan.Inst
-	mods    []api.Module
-	rt      wazero.Runtime
-	ctx     context.Context
-	script  []decision
-	spos    int
-	events  []recEvent
-	reDepth int
-	opts    classOpts
-	faults  int
-	maxNest int
-	hostErr string
+	t      *tape.Tape
+	res    *sim.Result
+	engine string
+	listen bool
+	subset map[string]bool // nil = all functions
+	// instSubset, when set, gives each instance (= each compilation) its own selection
+	instSubset []map[string]bool
+	w          *plan.World
+	insts      []*plan.Inst
+	mods       []api.Module
+	rt         wazero.Runtime
+	ctx        context.Context
+	script     []decision
+	spos       int
+	events     []recEvent
+	reDepth    int
+	opts       classOpts
+	faults     int
+	maxNest    int
+	hostErr    string
 }
 
 type classOpts struct {
@@ -87,9 +89,30 @@ type classOpts struct {
 	exit      bool
 }
 
-func (r *runner) listens(name string) bool {
+func (r *runner) listens(in *plan.Inst, name string) bool {
 	if !r.listen || strings.Contains(name, ".rec") {
 		return false
+	}
+	if in != nil && r.instSubset != nil {
+		for i, x := range r.insts {
+			if x == in {
+				return r.listensIdx(i, name)
+			}
+		}
+	}
+	if r.subset == nil {
+		return true
+	}
+	return r.subset[name]
+}
+
+// listensIdx: the selection used when instance idx was compiled.
+func (r *runner) listensIdx(idx int, name string) bool {
+	if !r.listen || strings.Contains(name, ".rec") {
+		return false
+	}
+	if r.instSubset != nil && idx >= 0 && idx < len(r.instSubset) && r.instSubset[idx] != nil {
+		return r.instSubset[idx][name]
 	}
 	if r.subset == nil {
 		return true
@@ -234,10 +257,13 @@ func (r *runner) realHost(ctx context.Context, mod api.Module, stack []uint64) {
 }
 
 // listener
-type lfactory struct{ r *runner }
+type lfactory struct {
+	r   *runner
+	idx int // instance (compilation) index, -1 for the host module
+}
 
 func (f lfactory) NewFunctionListener(def api.FunctionDefinition) experimental.FunctionListener {
-	if !f.r.listens(def.DebugName()) {
+	if !f.r.listensIdx(f.idx, def.DebugName()) {
 		return nil
 	}
 	return &lst{r: f.r}
@@ -311,7 +337,7 @@ func (r *runner) setup(plans []*plan.Plan, names []string, imports []int) {
 	r.ctx = context.Background()
 	cctx := r.ctx
 	if r.listen {
-		cctx = experimental.WithFunctionListenerFactory(r.ctx, lfactory{r})
+		cctx = experimental.WithFunctionListenerFactory(r.ctx, lfactory{r, -1})
 	}
 	var cfg wazero.RuntimeConfig
 	if r.engine == "interpreter" {
@@ -333,14 +359,20 @@ func (r *runner) setup(plans []*plan.Plan, names []string, imports []int) {
 	compiled := map[*plan.Plan]wazero.CompiledModule{}
 	for i, p := range plans {
 		cm := compiled[p]
+		ictx := cctx
+		if r.listen && r.instSubset != nil {
+			// one compilation per instance, each with its own listener selection
+			cm = nil
+			ictx = experimental.WithFunctionListenerFactory(r.ctx, lfactory{r, i})
+		}
 		if cm == nil {
-			cm, err = r.rt.CompileModule(cctx, p.Encode())
+			cm, err = r.rt.CompileModule(ictx, p.Encode())
 			if err != nil {
 				panic(fmt.Sprintf("harness: plan does not compile: %v", err))
 			}
 			compiled[p] = cm
 		}
-		mod, err := r.rt.InstantiateModule(cctx, cm, wazero.NewModuleConfig().WithName(names[i]))
+		mod, err := r.rt.InstantiateModule(ictx, cm, wazero.NewModuleConfig().WithName(names[i]))
 		if err != nil {
 			panic(fmt.Sprintf("harness: plan does not instantiate: %v", err))
 		}
